@@ -158,6 +158,11 @@ pub enum K {
     NNotify { n: usize },
     Park,
     Unpark { t: usize },
+    /// the canonical usage: `while a.load(mo) != want { n.wait() }` (robust against spurious
+    /// and stolen wake-ups); likewise with `park()` and, holding mutex `m`, `cv.wait(guard)`
+    NWaitUntil { n: usize, a: usize, mo: MO, want: u64 },
+    ParkUntil { a: usize, mo: MO, want: u64 },
+    CvWaitUntil { cv: usize, m: usize, a: usize, mo: MO, want: u64 },
     // ---- channel
     Send { ch: usize, v: u64 },
     Recv { ch: usize },
@@ -429,6 +434,9 @@ pub fn op_text(op: &Op) -> String {
         K::NWait { n } => write!(s, "nwait n{}", n),
         K::NNotify { n } => write!(s, "nnotify n{}", n),
         K::Park => write!(s, "park"),
+        K::NWaitUntil { n, a, mo, want } => write!(s, "nwait n{} until a{}=={}.{}", n, a, want, mo.short()),
+        K::ParkUntil { a, mo, want } => write!(s, "park until a{}=={}.{}", a, want, mo.short()),
+        K::CvWaitUntil { cv, m, a, mo, want } => write!(s, "wait cv{} m{} until a{}=={}.{}", cv, m, a, want, mo.short()),
         K::Unpark { t } => write!(s, "unpark T{}", t),
         K::Send { ch, v } => write!(s, "send ch{} {}", ch, v),
         K::Recv { ch } => write!(s, "recv ch{}", ch),
@@ -636,6 +644,9 @@ fn rust_op(t: usize, k: &K) -> String {
         K::NWait { n } => format!("n{}.wait(); {}", n, u),
         K::NNotify { n } => format!("n{}.notify(); {}", n, u),
         K::Park => format!("loom::thread::park(); {}", u),
+        K::NWaitUntil { n, a, mo, want } => format!("while a{}.load({}) != {} {{ n{}.wait(); }} {}", a, mo.rust(), want, n, u),
+        K::ParkUntil { a, mo, want } => format!("while a{}.load({}) != {} {{ loom::thread::park(); }} {}", a, mo.rust(), want, u),
+        K::CvWaitUntil { cv, m, a, mo, want } => format!("while a{0}.load({1}) != {2} {{ g_m{4} = Some(cv{3}.wait(g_m{4}.take().unwrap()).unwrap()); }} {5}", a, mo.rust(), want, cv, m, u),
         K::Unpark { t: tt } if *tt == 0 => format!("main_thread.unpark(); {}", u),
         K::Unpark { t: tt } if t == 0 => format!("h{}.as_ref().unwrap().thread().unpark(); {}", tt, u),
         K::Send { ch, v } => format!("let _ = tx{}.send({}); {}", ch, v, u),
